@@ -109,6 +109,8 @@ pub enum TOp {
     WithFinishMessage(String, bool),
     /// finish_using_style(): applies whatever finish behaviour is stored
     FinishUsingStyle,
+    /// set_message / set_prefix (flag) with the text the getter returns now: plain, no TAB left in it
+    SetExpandedCopy(bool),
     /// keep a copy of the bar's current style (ProgressBar::style()) for later
     StashStyle,
     /// set_style with the copy taken earlier (it was taken at whatever tab width the bar had then)
@@ -156,6 +158,7 @@ fn op_strategy() -> BoxedStrategy<TOp> {
         1 => Just(TOp::Tick),
         1 => (text_strategy(), any::<bool>()).prop_map(|(m, a)| TOp::WithFinishMessage(m, a)),
         1 => Just(TOp::FinishUsingStyle),
+        1 => any::<bool>().prop_map(TOp::SetExpandedCopy),
         1 => Just(TOp::StashStyle),
         1 => Just(TOp::SetStashedStyle),
     ]
@@ -198,6 +201,7 @@ fn decode_tabs(u: &mut FuzzInput) -> TabCase {
             14 => TOp::WithFinishMessage(text(u), u.bool()),
             15 => TOp::FinishUsingStyle,
             16 => TOp::StashStyle,
+            17 if u.bool() => TOp::SetExpandedCopy(u.bool()),
             _ => TOp::SetStashedStyle,
         });
     }
@@ -232,6 +236,7 @@ fn run_tabs(c: &TabCase) -> CaseResult {
     let mut stored_finish: Option<String> = None;
     // (style copied from the bar, template index it renders)
     let stash: std::cell::RefCell<Option<(ProgressStyle, u8)>> = std::cell::RefCell::new(None);
+    let kept: std::cell::RefCell<Vec<ProgressStyle>> = std::cell::RefCell::new(vec![]);
     for (i, op) in c.ops.iter().enumerate() {
         clock::advance(std::time::Duration::from_millis(3));
         let mut cur = pb.take().unwrap();
@@ -258,14 +263,32 @@ fn run_tabs(c: &TabCase) -> CaseResult {
                     cur
                 }
                 TOp::WithTabWidth(w) => cur.with_tab_width(*w),
+                // (the caller keeps its own copy of every style it hands over, as code that configures
+                // several bars from one style does)
                 TOp::SetStyle(t) => {
-                    cur.set_style(make_style(*t, None));
+                    let st = make_style(*t, None);
+                    kept.borrow_mut().push(st.clone());
+                    cur.set_style(st);
                     cur
                 }
-                TOp::WithStyle(t) => cur.with_style(make_style(*t, None)),
+                TOp::WithStyle(t) => {
+                    let st = make_style(*t, None);
+                    kept.borrow_mut().push(st.clone());
+                    cur.with_style(st)
+                }
                 TOp::ReTemplate(t) => {
                     let st = make_style(*t, Some(cur.style()));
+                    kept.borrow_mut().push(st.clone());
                     cur.set_style(st);
+                    cur
+                }
+                TOp::SetExpandedCopy(prefix) => {
+                    // plain text that equals what the current (possibly tabbed) text expands to
+                    if *prefix {
+                        cur.set_prefix(cur.prefix());
+                    } else {
+                        cur.set_message(cur.message());
+                    }
                     cur
                 }
                 TOp::SetMessage(m) => {
@@ -353,6 +376,14 @@ fn run_tabs(c: &TabCase) -> CaseResult {
                 }
             }
             TOp::Reset | TOp::Tick | TOp::StashStyle => {}
+            TOp::SetExpandedCopy(is_prefix) => {
+                if *is_prefix {
+                    prefix = model::expand_tabs(&prefix, tw);
+                } else {
+                    msg = model::expand_tabs(&msg, tw);
+                }
+                v.label("expanded_text_set_again_as_plain_text");
+            }
             TOp::SetStashedStyle => {
                 if let Some((_, t)) = stash.borrow().as_ref() {
                     tmpl = *t;
@@ -423,10 +454,10 @@ pub fn property() -> Property {
             name: "history",
             rule: "0-14 (thorough 30) ops from set_tab_width/with_tab_width (0..=16), set_style/with_style/style().template() re-set over 7 templates (tabs in literals, '{'+TAB, custom keys writing tabs in one and in several writes), set/with message/prefix with 0-5 tabs, finish_with_message/abandon_with_message/reset/tick, optional final drop with ProgressFinish::WithMessage; after every op: no TAB in any terminal write, painted lines == model with tabs -> current width, message()/prefix() == expanded; non-trivial = a width change after a text with a tab was set",
             strategy: case_strategy,
-            cases: |t| t.pick(6_000, 1_200_000),
+            cases: |t| t.pick(30_000, 1_200_000),
             run: run_tabs,
             signature: no_signature,
-            essential: &["width_change_after_tab_text", "retemplate_of_cloned_style", "width_zero", "drop_with_message", "finish_message_with_tab", "configured_while_hidden_then_shown", "stored_finish_message_applied", "style_taken_from_the_bar_earlier_set_again"],
+            essential: &["width_change_after_tab_text", "retemplate_of_cloned_style", "width_zero", "drop_with_message", "finish_message_with_tab", "configured_while_hidden_then_shown", "stored_finish_message_applied", "style_taken_from_the_bar_earlier_set_again", "expanded_text_set_again_as_plain_text"],
             workers: w,
             decode: Some(decode_tabs),
         })],
